@@ -140,8 +140,8 @@ impl World {
     }
 
     fn c03_exit(&self, what: &str, d0: usize, f0: usize) -> VResult {
-        if drops_len() != d0 {
-            viol!("c03.destructed_in_callback", "{} value(s) destructed while a {what} callback was running", drops_len() - d0);
+        if arena_drops_since(d0) != 0 {
+            viol!("c03.destructed_in_callback", "{} value(s) destructed while a {what} callback was running", arena_drops_since(d0));
         }
         if talloc::gc_frees_len() != f0 {
             viol!("c03.released_in_callback", "{} allocation(s) released while a {what} callback was running", talloc::gc_frees_len() - f0);
@@ -499,6 +499,19 @@ impl World {
                 })?;
                 self.sh.objs[op.b as usize].w = Some(op.c);
             }
+            K::AdoptWeakFrom => {
+                if credit_path(op.a) {
+                    self.credit_calls += 1;
+                }
+                let t = self.sh.objs[op.c as usize].w.expect("weak");
+                self.with_mutate(|w, mc, _, m| {
+                    let wk = w.node(m, op.c).wk().expect("weak pointer");
+                    adopt_weak(mc, op.a, w.node(m, op.b), wk);
+                    Ok(())
+                })?;
+                self.sh.objs[op.b as usize].w = Some(t);
+                self.cov.bump(if self.sh.objs[t as usize].dropped { "adopt_weak_of_destructed_target" } else { "adopt_weak_of_unreachable_target" });
+            }
             K::AdoptWeakNew => {
                 let id = self.alloc_id(KNODE);
                 if credit_path(op.a) {
@@ -573,9 +586,9 @@ impl World {
                 })?;
                 self.sh.objs[op.a as usize].cell = None;
             }
-            K::CellSet | K::CellSetNew | K::CellClear | K::CellInit => {
+            K::CellSet | K::CellSetNew | K::CellClear | K::CellInit | K::CellInitNew => {
                 let cid = self.sh.objs[op.a as usize].cell.expect("cell");
-                let newid = if op.k == K::CellSetNew { Some(self.alloc_id(KNODE)) } else { None };
+                let newid = if matches!(op.k, K::CellSetNew | K::CellInitNew) { Some(self.alloc_id(KNODE)) } else { None };
                 let r = self.with_mutate(|w, mc, _, m| {
                     let c = m[cid as usize].unwrap().cell();
                     match op.k {
@@ -585,6 +598,19 @@ impl World {
                             Ok((cell_set(mc, c, Some(g)), Gc::as_ptr(g) as usize, None))
                         }
                         K::CellClear => Ok((cell_set(mc, c, None), 0, None)),
+                        K::CellInitNew => {
+                            let CellRef::O(o) = c else { unreachable!() };
+                            let mut addr = 0usize;
+                            let got = *o.get_or_init(mc, || {
+                                let g = new_node(mc, base + newid.unwrap() as u32);
+                                addr = Gc::as_ptr(g) as usize;
+                                g
+                            });
+                            if addr == 0 {
+                                viol!("c06.oncelock_init", "get_or_init on an empty cell did not run its initialiser");
+                            }
+                            Ok((true, addr, Some(got.id)))
+                        }
                         _ => {
                             let CellRef::O(o) = c else { unreachable!() };
                             let want = w.node(m, op.b);
@@ -600,6 +626,13 @@ impl World {
                 let o = &mut self.sh.objs[cid as usize];
                 match op.k {
                     K::CellClear => o.s[0] = None,
+                    K::CellInitNew => {
+                        let nid = newid.unwrap();
+                        if got != Some(base + nid as u32) {
+                            viol!("c06.oncelock_init", "get_or_init on an empty cell returned object {:?}, expected the fresh object {nid}", got);
+                        }
+                        o.s[0] = Some(nid);
+                    }
                     K::CellInit => {
                         let expect = o.s[0].unwrap_or(op.b);
                         if got != Some(base + expect as u32) {
@@ -1019,6 +1052,20 @@ impl World {
                     }
                     if !mutated && Gc::is_dead(fc, g) != !r_ {
                         viol!("c07.exact", "no mutation since marking began: object {id} reachable={r_} but is_dead={}", Gc::is_dead(fc, g));
+                    }
+                    // a weak pointer made on the spot (never traced) answers like the strong pointer
+                    if Gc::downgrade(g).is_dead(fc) != Gc::is_dead(fc, g) {
+                        viol!("c07.weak_fresh", "object {id}: Gc::is_dead = {} but a fresh GcWeak to it reports is_dead = {}", Gc::is_dead(fc, g), Gc::downgrade(g).is_dead(fc));
+                    }
+                    // the weak pointer held by this object - never traced this cycle if the object is dead
+                    if let (Some(wk), Some(t)) = (g.wk(), this.sh.objs[id as usize].w) {
+                        let tr = reach[t as usize];
+                        if tr && wk.is_dead(fc) {
+                            viol!("c07.weak_reachable_dead", "weak pointer (held by object {id}) to strongly reachable object {t} reports is_dead");
+                        }
+                        if !mutated && wk.is_dead(fc) != !tr {
+                            viol!("c07.exact", "no mutation since marking began: weak pointer held by {} object {id} to object {t} (reachable={tr}) reports is_dead={}", if r_ { "reachable" } else { "dead" }, wk.is_dead(fc));
+                        }
                     }
                     for k in 0..2 {
                         if let Some(c) = g.s[k].get() {
